@@ -219,8 +219,27 @@ def _shard_entry(args):
         return ('err', 'shard %d of %s:\n%s' % (shard, fn.__name__, traceback.format_exc()))
 
 
+def _child_main(conn, job):
+    """Body of one forked worker: run the shard, send the result, leave without running exit handlers
+    (threads of the code under test must never keep a finished worker alive)."""
+    try:
+        res = _shard_entry(job)
+        try:
+            conn.send(res)
+        except BaseException:
+            conn.send(('err', 'shard %d of %s: result could not be sent:\n%s' % (job[1], job[0].__name__, traceback.format_exc())))
+        conn.close()
+    finally:
+        sys.stdout.flush()
+        sys.stderr.flush()
+        os._exit(0)
+
+
 def parallel(fn, nshards, seed, tier, extra=(), procs=None):
-    """Run fn(shard, nshards, seed, tier, *extra) -> Stats in `nshards` forked processes."""
+    """Run fn(shard, nshards, seed, tier, *extra) -> Stats in forked processes, one fresh process per
+    shard, at most `procs` at a time.  A worker that dies without delivering a result (killed, crashed
+    interpreter) is a HarnessError, never a hang."""
+    from multiprocessing import connection
     procs = procs or int(os.environ.get('VERIF_PROCS', '16'))
     jobs = [(fn, i, nshards, seed, tier, tuple(extra)) for i in range(nshards)]
     total = Stats()
@@ -228,8 +247,36 @@ def parallel(fn, nshards, seed, tier, extra=(), procs=None):
         results = [_shard_entry(j) for j in jobs]
     else:
         ctx = multiprocessing.get_context('fork')
-        with ctx.Pool(min(procs, nshards), maxtasksperchild=1) as pool:
-            results = pool.map(_shard_entry, jobs, chunksize=1)
+        results = [None] * len(jobs)
+        pending = list(enumerate(jobs))
+        running = {}
+        try:
+            while pending or running:
+                while pending and len(running) < procs:
+                    idx, job = pending.pop(0)
+                    recv_end, send_end = ctx.Pipe(duplex=False)
+                    sys.stdout.flush()
+                    sys.stderr.flush()
+                    proc = ctx.Process(target=_child_main, args=(send_end, job), daemon=True)
+                    proc.start()
+                    send_end.close()
+                    running[recv_end] = (idx, proc)
+                for conn in connection.wait(list(running), timeout=5.0):
+                    idx, proc = running.pop(conn)
+                    try:
+                        results[idx] = conn.recv()
+                    except (EOFError, OSError):
+                        proc.join(10)
+                        results[idx] = ('err', 'worker for shard %d of %s died without a result (exit code %r)'
+                                        % (idx, fn.__name__, proc.exitcode))
+                    conn.close()
+                    proc.join(30)
+                    if proc.is_alive():
+                        proc.kill()
+        finally:
+            for conn, (idx, proc) in running.items():
+                if proc.is_alive():
+                    proc.kill()
     for kind, res in results:
         if kind == 'err':
             raise HarnessError(res)
